@@ -119,6 +119,14 @@ impl Check for C15 {
     fn case_cap_s(&self, _t: Tier) -> u64 {
         1500
     }
+    fn sanitizer_leg(&self, tier: Tier, _seed: u64) -> Option<Leg> {
+        // thread clause: first use of one lazily reconstituted table from several threads, under Miri's
+        // data-race detector with four scheduler seeds
+        if tier != Tier::Thorough {
+            return None;
+        }
+        Some(run_miri_leg("OK threads", 1, 4, std::time::Duration::from_secs(2400)))
+    }
     fn run_case(&self, seed: u64, idx: u64, tier: Tier) -> CaseOut {
         let mut out = CaseOut::new();
         if idx + 1 == self.ncases(tier) {
